@@ -99,7 +99,20 @@ var part3Topics = map[string]bool{"HashTab": true, "HashDict": true, "HPInit": t
 // (and second) part as well.
 var part4Topics = map[string]bool{}
 
+// promoted3: the topics of the third part proper (the table above).  They are translated with the
+// constructs of the fourth part switched on as well (three-clause loops, `continue`, return inside a
+// loop, labels, … — so that a behaviour-preserving rewrite that uses one of them is not refused), with
+// one restriction that keeps their trusted base unchanged: a slice parameter is admitted only as the
+// ONLY slice a function can reach (no receiver, no second slice parameter), so that the "slices passed
+// for different parameters do not overlap" reading of the fourth part is never needed (checkSig3).
+// The translation of the unchanged repository is the same as without the promotion.
+var promoted3 = map[string]bool{}
+
 func init() {
+	for n := range part3Topics {
+		promoted3[n] = true
+		part4Topics[n] = true
+	}
 	for _, t := range topics4 {
 		part3Topics[t.name] = true
 		part4Topics[t.name] = true
@@ -193,6 +206,8 @@ func (c *codegen) restore(s cgSnap) {
 	c.phase3 = false
 	c.phase4 = false
 	c.phase5 = false
+	c.strictSliceParams = false
+	c.declOrder = false
 }
 
 // checkReflPrimsSoft is checkReflPrims with a refusal instead of a fatal error.
@@ -468,9 +483,12 @@ func translateTopics(p *pkgInfo, topicsIn []topic, withMisc bool, prefix string,
 			}
 			c.phase2, c.phase3, c.phase4, c.phase5 = t.part2, part3Topics[t.name], part4Topics[t.name], part5Topics[t.name]
 			c.ptrNonNil = ptrNonNilTopics[t.name]
+			c.strictSliceParams = promoted3[t.name]
+			c.declOrder = declOrderTopics[t.name]
 			for _, k := range t.fns {
 				c.ensure(k, c.fns[k])
 			}
+			c.strictSliceParams = false
 			c.phase2, c.phase3, c.phase4, c.phase5 = false, false, false, false
 			c.ptrNonNil = false
 		}
